@@ -396,6 +396,17 @@ theorem pin_registered :
     [Generated.C16.net0_hrpKnown, Generated.C16.net1_hrpKnown, Generated.C16.net2_hrpKnown,
      Generated.C16.net3_hrpKnown, Generated.C16.net4_hrpKnown, Generated.C16.net5_hrpKnown, Generated.C16.net6_hrpKnown] =
       Spec.nets.map (fun n => Spec.registeredHrps.contains n.hrp) := by decide
+/-- the prefix registries: known P2PKH / P2SH version bytes are exactly those of the registered networks (sorted,
+without duplicates), `HDPrivateKeyToPublicKeyID` maps every network's private id to its public id, unknown or
+malformed ids are refused -/
+theorem pin_registries :
+    Generated.C16.pkhIDs = [0, 48, 63, 111] ∧ Generated.C16.shIDs = [5, 50, 123, 196] ∧
+    (∀ n ∈ Spec.registered, (n.pkh.toNat : Int) ∈ Generated.C16.pkhIDs ∧ (n.sh.toNat : Int) ∈ Generated.C16.shIDs) ∧
+    [Generated.C16.net0_hdPrivToPub, Generated.C16.net1_hdPrivToPub, Generated.C16.net2_hdPrivToPub,
+     Generated.C16.net3_hdPrivToPub, Generated.C16.net4_hdPrivToPub, Generated.C16.net5_hdPrivToPub,
+     Generated.C16.net6_hdPrivToPub] = Spec.nets.map (fun n => n.hdPub.map (fun c => (c.toNat : Int))) ∧
+    Generated.C16.hdUnknownRejected = true ∧ Generated.C16.hdRegisterBadLen = true := by decide
+
 theorem pin_consts : Generated.C16.bech32Const = (BechVer.v0.const : Int) ∧
     Generated.C16.bech32mConst = (BechVer.vM.const : Int) ∧
     Generated.C16.payToAnchorScript = (payToAddrScript (.p2a [])).map (fun c => (c.toNat : Int)) ∧
